@@ -196,7 +196,7 @@ func checkC07(c c07Case) (o vstat.Outcome) {
 		if sr.maxReq > maxRequest && sr.maxReq > limit {
 			return vstat.Viol("over-limit-body-requested", "reader asked for %d bytes for an over-limit prefix", sr.maxReq)
 		}
-		if sr.maxReq > limit+16 {
+		if sr.maxReq > limit {
 			return vstat.Viol("over-limit-body-requested", "reader asked for %d bytes (limit %d)", sr.maxReq, limit)
 		}
 		if err == nil && c.Kind == "random" {
